@@ -16,8 +16,8 @@ CLAIMED = {
  "C05": dict(cat="other", tech=KV + " (built-in panic / bounds / overflow / capacity checks), bounded in input length",
              text="Bounded stand-in: every hand-written legacy decoder of mithril-stm is run by Kani on all byte strings of a few stated lengths; obligations are Kani's panic, bounds, arithmetic-overflow and capacity-overflow checks.",
              note="Bounded in input length (never counted as proved); blst point validation and ciborium are assumed total; round trips and serde/JSON/hex decoders are not decided.", ref="§4 C05"),
- "C06": dict(cat="proof", tech=KV + ", 96-byte comparison loop completely unrolled",
-             text="The Ord impls of the registration entry types are proved to be the lexicographic total order on (stake, 96-byte key encoding) - the law that makes BTreeSet iteration order, hence leaf order, signer slots and the aggregate key, a function of the registered set.",
+ "C06": dict(cat="proof", tech=KV + ", 96-byte comparison loop completely unrolled + " + VX + " (SignerBuilder::new)",
+             text="The Ord impls of the registration entry types are proved to be the lexicographic total order on (stake, 96-byte key encoding) - the law that makes BTreeSet iteration order, hence leaf order, signer slots and the aggregate key, a function of the registered set; SignerBuilder::new (the single function through which signer, aggregator and client derive the key) registers each listed signer with its own material against the stake distribution derived from the same list.",
              note="PARTIAL: blst encoding as contract stub; std BTreeSet ordered by Ord (assumed); order-independence of the executed registration code, serde round trips and collision resistance are not decided.", ref="§4 C06"),
  "C07": dict(cat="proof", tech=VX + " (KES window, KeyRegWrapper::register, OpCert::validate, mithril-stm registration)",
              text="Every conjunct of the registration rule (opcert signed by the cold key, key signed by that opcert's KES key within one period, proof of possession, pool id derived from the cold key and present in the stake distribution, key not already registered, stake taken from the distribution) is a postcondition proved on the extracted text in both crates.",
@@ -40,9 +40,9 @@ CLAIMED = {
  "C18": dict(cat="proof", tech=KV + ": representation invariant + per-operation contracts from arbitrary invariant states",
              text="Inv (len <= size, single generation) and per-operation contracts of the real generic pool instantiated with generation-tagged resources: an induction over all sequential histories for the stated capacities.",
              note="Capacity <= 2 (shapes enumerated); no threads in Kani: interleavings inside one operation and the wake-up clause are not decided.", ref="§4 C18"),
- "C20": dict(cat="proof", tech=KV + ", loop-free over all epochs",
-             text="PARTIAL: the epoch-offset algebra shared by signer and aggregator (a key recorded at e is retrieved for signing at e + signing offset; next signers of e are current signers of e+1; retrieval fails exactly at epoch 0).",
-             note="Only the offset algebra; at-most-once signing, signing after registration and restarts (async state machine over SQLite) are not decided.", ref="§4 C20"),
+ "C20": dict(cat="proof", tech=KV + ", loop-free over all epochs + " + VX + " (signer-side eligibility gate)",
+             text="PARTIAL: the epoch-offset algebra shared by signer and aggregator (a key recorded at e is retrieved for signing at e + signing offset; next signers of e are current signers of e+1; retrieval fails exactly at epoch 0), and the signer's gate can_signer_sign_current_epoch (true only with stored key material for the epoch whose key is the one listed for this party).",
+             note="At-most-once signing per beacon, restarts and acceptance by the aggregator at run level (async state machines over SQLite) are not decided.", ref="§4 C20"),
 }
 NA = {
  "C04": "Tamper-evidence is injectivity of a byte-string pre-image built from Strings, chrono timestamps, JSON-hex keys and serde_json round trips under SHA-256: Verus has no str/byte reasoning, CBMC cannot execute serde/JSON/hex symbolically beyond a few bytes, and 'different pre-image => different hash' is an assumption, so no contract within reach expresses or decides it.",
